@@ -211,7 +211,22 @@ def concrete_state(backend, root, a=None):
         try:
             rows = list(arch._engine.execute('select rowid, argstr, fval from %s order by rowid' % arch.__state__['id']))
             # rowids themselves are irrelevant; order and content matter
-            return repr([(k, v) for _, k, v in rows])
+            mine = repr([(k, v) for _, k, v in rows])
+            if fam != 'sql':
+                return mine
+            # ... and the rows that are durable, i.e. what a second connection reads (differs from `mine` exactly when
+            # the handle sits in an uncommitted transaction)
+            import sqlite3
+            path = os.path.join(root, 'arch.db')
+            try:
+                con = sqlite3.connect(path, timeout=0.05)
+                try:
+                    durable = repr(list(con.execute('select argstr, fval from %s order by rowid' % arch.__state__['id'])))
+                finally:
+                    con.close()
+            except Exception as e:
+                durable = 'ERR %s' % type(e).__name__
+            return (mine, durable)
         except Exception as e:
             return 'ERR %r' % (e,)
     return None
